@@ -146,11 +146,12 @@ class YosysBehavioralRTLIRToVVisitorL1( BehavioralRTLIRToVVisitorL1 ):
 
     if value is None:
       node.value._top_expr = 1
-      value_str = s.visit( node.value )
       cur_nbits = node.value.Type.get_dtype().get_length()
       if cur_nbits == nbits:
-        return value_str
-      elif cur_nbits > nbits:
+        # the operand takes the place of the cast: Bits4( a + b ) * c
+        return s.visit_expr_wrap( node.value )
+      value_str = s.visit( node.value )
+      if cur_nbits > nbits:
         msb = nbits-1
         return f"{value_str}[{msb}:0]"
       else:
